@@ -21,8 +21,7 @@ TEXTS = {
          'inv/solve/det/logdet/cholesky/lu, qr/qr_full/cholesky/eigh/eig/svd on factor-built inputs, fft/ifft) and seeded random compositions is recorded by the real tracer; the reverse sweep runs with a symbolic adjoint seed and the adjoint identity '
          '<xbar,v> = <ybar,F\'(x)v> mod t^D is proved at every order for a symbolic direction v, with F\'(x)v from symbolic differentiation of the forward DAG; two routes (record elsewhere + re-evaluate, sweep right after recording), '
          'fan-out wrappers, a second sweep; exceptions in existing pullbacks are violations',
-         FLOATS + 'programs enumerated (catalogue + 12 quick / 160 thorough random), D<=2-3 quick / <=3(4) thorough, P<=2; LAPACK factorisations via contract stubs / the LU pivoting model; svd: all outputs only at order 0, single outputs at order 1; '
-         'known findings (pb_sum argument order) listed in known_findings.txt', '4 C03'),
+         FLOATS + 'programs enumerated (catalogue + 12 quick / 160 thorough random), D<=2-3 quick / <=3(4) thorough, P<=2; LAPACK factorisations via contract stubs / the LU pivoting model; svd: all outputs only at order 0, single outputs at order 1', '4 C03'),
  'C04': ('each driver (gradient, jacobian, jac_vec, vec_jac, hessian, hess_vec, vec_hess, vec_hess_vec, jacobian(Taylor argument)) on graphs recorded at an independent symbolic point/kind is proved equal to symbolic first/second derivatives '
          'of the direct evaluation of the program at the symbolic evaluation point; integer-typed points; results kept across later calls',
          FLOATS + 'programs R^3->R^M: fixed lists, every 1-D buffer/indexing program of the catalogue, random compositions; recording kinds ndarray / UTPM(1,1) / UTPM(2,2)', '4 C04'),
